@@ -59,6 +59,18 @@ fn main() {
         let r = std::panic::catch_unwind(move || {
             if g2.starts_with("probe:") {
                 vharness::run_probe(&g2, &args)
+            } else if let Some(rest) = g2.strip_prefix("doc:") {
+                // doc:<md|html|man>:<grammar> => generated documentation (docgen builds only)
+                #[cfg(feature = "full")]
+                {
+                    let (fmt, name) = rest.split_once(':')?;
+                    return vharness::render_doc(name, fmt).map(|d| format!("doc\t{:?}", d));
+                }
+                #[cfg(not(feature = "full"))]
+                {
+                    let _ = rest;
+                    None
+                }
             } else {
                 #[cfg(feature = "derive")]
                 if let Some(r) = vharness::derived::run_derived(&g2, &args) {
